@@ -668,6 +668,7 @@ func c20More(p *load.Prog, r *oblig.Run) {
 	c20ValidRange(p, r)
 	c20Producers(p, r)
 	c20Collects(p, r)
+	c20Conditions(p, r)
 	cb := p.Method(load.PkgRoot, "FamilyNode", "childrenBornBeforeParentsWarnings")
 	ctor := p.Func(load.PkgRoot, "NewChildBornBeforeParentWarning")
 	if cb == nil || ctor == nil {
